@@ -102,6 +102,10 @@ CHECKS = {
             'For every combination in the tables, for both clients: connect() raises ConnectionError and leaves a disconnected, reusable client, or fires connect once and adopts sid / transport / timing; every established connection ends with exactly one disconnect of the right reason class, '
             'state disconnected, sid cleared, no later event, all background tasks finished (wait() returns), connect() works again; send()/disconnect() on a disconnected client do nothing.',
             'Trusted: CrossHair (selector enumeration), z3, the kernel, the client transport stubs and the scripted server.', '§3 C08'),
+    'C09': (SIM + ' (client side); symbolic PING text through the real clients, solver-enumerated server scripts / send sequences / probe answers / silence points against a scripted server; _get_engineio_url on symbolic URL parts',
+            'For every PING text inside the bound the PONG carries the same text; for every script and send sequence in the tables, on both clients and all transport modes, messages reach the handler once and in arrival order with the decoded payload, sends reach the server once and in order on the transport in use '
+            '(binary as binary frames / base64), the upgrade is sent only after PONG probe and nothing queued is lost otherwise, silence is detected within the bound, and the request URL equals the reference formatting.',
+            'Trusted: CrossHair, z3, the kernel, client transport stubs, scripted server; the json seam in the symbolic PING condition.', '§3 C09'),
 }
 
 NOT_BUILT = 'check not built yet in this round (see DESIGN.md §8 build order); not claimed until it runs'
